@@ -110,7 +110,7 @@ func init() {
 			"copies through deepCopy (R-FRESH, SSA origin of the stored slice).",
 		NotDecided:  "That Slice copies the right elements (value-level).",
 		Assumptions: []string{"no reflection/unsafe reaches evaluator values (checked by R-TIMESOURCE for unsafe)"},
-		Rules:       []*Rule{ruleImmut, ruleFresh, ruleEvalMisc},
+		Rules:       []*Rule{ruleImmut, ruleFresh, ruleEvalMisc, ruleVMFresh},
 	})
 	Register(&Property{
 		ID: "C12",
